@@ -307,3 +307,18 @@ fn p11_partial_decision() {
     if let Some(dd) = d { assert_eq!(dd, concrete); }
     std::mem::forget(pr);
 }
+
+#[kani::proof]
+#[kani::unwind(6)]
+fn p15_wildcard_22() {
+    let elems = [any_elem(), any_elem()];
+    let p = Pattern::from(elems.to_vec());
+    let tb: [u8; 2] = [kani::any(), kani::any()];
+    kani::assume(tb[0] < 128 && tb[1] < 128);
+    let text = std::str::from_utf8(&tb).unwrap();
+    let m = p.wildcard_match(text);
+    kani::cover!(m, "some match");
+    kani::cover!(!m, "some non-match");
+    assert_eq!(m, dp_match(&elems, &tb));
+    std::mem::forget(p);
+}
